@@ -1,0 +1,26 @@
+//go:build verif
+
+package compose
+
+// Verification hooks (build tag "verif" only). They forward to package-level func vars that are nil unless a
+// test installs them; nothing here changes behaviour. See /verif/DESIGN.md section 3.2.
+
+const verifOn = true
+
+// verifTracer receives trace events; verifGater is called at scheduling gates. Both are nil by default.
+var (
+	verifTracer func(ev string, kv ...any)
+	verifGater  func(point string, id string)
+)
+
+func verifEmit(ev string, kv ...any) {
+	if f := verifTracer; f != nil {
+		f(ev, kv...)
+	}
+}
+
+func verifGate(point string, id string) {
+	if f := verifGater; f != nil {
+		f(point, id)
+	}
+}
